@@ -312,7 +312,7 @@ def draw(rng, fam, depth=0):
         return G(fam, dict(theta=rng.choice([0.25, 0.1, 0.0, -0.125, round(rng.uniform(-1, 1), 3)])), (2, 2))
     if fam == 'Ctrl':
         subfam = rng.choice(['XPow', 'YPow', 'ZPow', 'HPow', 'CZPow', 'CXPow', 'SwapPow', 'ISwapPow', 'PhasedX', 'Matrix', 'FSim',
-                             'GlobalPhase', 'Rx', 'Rz', 'ZZPow', 'Z4Pow', 'Ctrl'] if depth < 2 else ['XPow', 'ZPow', 'HPow'])
+                             'GlobalPhase', 'Rx', 'Rz', 'ZZPow', 'Z4Pow', 'X4Pow', 'Ctrl'] if depth < 2 else ['XPow', 'ZPow', 'HPow'])
         sub = draw(rng, subfam, depth + 1) if subfam == 'Ctrl' else draw(rng, subfam)
         while len(sub.shape) > 2:
             sub = draw(rng, 'XPow')
